@@ -1,6 +1,7 @@
 package simrt
 
 import (
+	"strings"
 	"fmt"
 	"os"
 	"runtime"
@@ -135,6 +136,12 @@ type Sim struct {
 
 	Deadlock  bool
 	Capped    bool
+	// NativeBlocked: the task holding the baton sits in a blocking primitive the simulator does not
+	// model (one inside a dependency, say) and no other task can ever release it because they are
+	// all parked. Not a verdict about the code: the harness repeats the workload with ordinary
+	// goroutines. BlockedInfo is the goroutine state and innermost frames.
+	NativeBlocked bool
+	BlockedInfo   string
 	StuckSite string
 
 	// InBuild classifies a yield site as "inside the schema build path"
@@ -297,14 +304,45 @@ func (s *Sim) Run(watchdog time.Duration) {
 	}
 	stop := make(chan struct{})
 	go func() {
-		select {
-		case <-stop:
-		case <-time.After(watchdog):
-			fmt.Fprintf(os.Stderr, "simrt: WATCHDOG: run did not finish within %v; a task is blocked outside the simulator's control (last site %s)\n", watchdog, s.lastSiteUnsafe())
-			buf := make([]byte, 1<<20)
-			n := runtime.Stack(buf, true)
-			os.Stderr.Write(buf[:n])
-			os.Exit(3)
+		deadline := time.After(watchdog)
+		tick := time.NewTicker(50 * time.Millisecond)
+		defer tick.Stop()
+		var last uint64
+		still := 0
+		for {
+			select {
+			case <-stop:
+				return
+			case <-deadline:
+				fmt.Fprintf(os.Stderr, "simrt: WATCHDOG: run did not finish within %v; a task is blocked outside the simulator's control (last site %s)\n", watchdog, s.lastSiteUnsafe())
+				buf := make([]byte, 1<<20)
+				n := runtime.Stack(buf, true)
+				os.Stderr.Write(buf[:n])
+				os.Exit(3)
+			case <-tick.C:
+				p := s.progressUnsafe()
+				if p != last {
+					last, still = p, 0
+					continue
+				}
+				still++
+				if still < 3 {
+					continue
+				}
+				// no yield for 150 ms: is the baton holder asleep in the Go runtime?
+				if info, ok := s.holderBlocked(); ok {
+					if still < 5 {
+						continue // must still be so 100 ms later
+					}
+					if s.progressUnsafe() != last {
+						last, still = s.progressUnsafe(), 0
+						continue
+					}
+					s.setNativeBlocked(info)
+					rawWrite(s.mainW)
+					return
+				}
+			}
 		}
 	}()
 	setActive(s)
@@ -314,10 +352,92 @@ func (s *Sim) Run(watchdog time.Duration) {
 	rawRead(s.mainR)
 	setActive(nil)
 	close(stop)
-	if !s.Deadlock && !s.Capped {
+	if !s.Deadlock && !s.Capped && !s.nativeBlockedUnsafe() {
 		s.wg.Wait() // real happens-before edge: results written by tasks are now visible
 	}
 	s.finished = true
+}
+
+//go:norace
+func (s *Sim) progressUnsafe() uint64 {
+	return uint64(s.Stats.Yields) + uint64(len(s.Switches))<<40
+}
+
+//go:norace
+func (s *Sim) nativeBlockedUnsafe() bool { return s.NativeBlocked }
+
+//go:norace
+func (s *Sim) setNativeBlocked(info string) {
+	s.NativeBlocked = true
+	s.BlockedInfo = info
+	if s.cur != nil {
+		s.StuckSite = s.cur.curSite
+	}
+}
+
+//go:norace
+func (s *Sim) holderGoid() uint64 {
+	if s.cur == nil {
+		return 0
+	}
+	return s.cur.goid
+}
+
+// blockedStates are the wait reasons of a goroutine that only another
+// goroutine can end.
+var blockedStates = []string{"semacquire", "sync.WaitGroup.Wait", "sync.Cond.Wait", "chan receive", "chan send", "select",
+	"sync.Mutex.Lock", "sync.RWMutex.RLock", "sync.RWMutex.Lock", "sleep", "IO wait"}
+
+// holderBlocked inspects the goroutine dump for the task that holds the baton.
+func (s *Sim) holderBlocked() (string, bool) {
+	id := s.holderGoid()
+	if id == 0 {
+		return "", false
+	}
+	buf := make([]byte, 1<<20)
+	n := runtime.Stack(buf, true)
+	dump := string(buf[:n])
+	hdr := fmt.Sprintf("goroutine %d [", id)
+	i := strings.Index(dump, hdr)
+	if i < 0 {
+		return "", false
+	}
+	rest := dump[i+len(hdr):]
+	j := strings.IndexByte(rest, ']')
+	if j < 0 {
+		return "", false
+	}
+	state := rest[:j]
+	blocked := false
+	for _, b := range blockedStates {
+		if strings.HasPrefix(state, b) {
+			blocked = true
+		}
+	}
+	if !blocked {
+		return "", false
+	}
+	// innermost frames, for the report
+	end := strings.Index(rest, "\n\n")
+	if end < 0 {
+		end = len(rest)
+	}
+	lines := strings.Split(rest[j+1:end], "\n")
+	var fr []string
+	for _, l := range lines {
+		l = strings.TrimSpace(l)
+		if l == "" || strings.HasPrefix(l, "/") || strings.HasPrefix(l, "runtime.") || strings.HasPrefix(l, "internal/") || strings.HasPrefix(l, ":") {
+			continue
+		}
+		if k := strings.IndexByte(l, '('); k > 0 {
+			l = l[:k]
+		}
+		fr = append(fr, l)
+		if len(fr) == 4 {
+			break
+		}
+	}
+	return state + " in " + strings.Join(fr, " < "), true
 }
 
 //go:norace
@@ -369,9 +489,7 @@ func (s *Sim) recordSwitch(from, at, to int) {
 }
 
 func (s *Sim) taskMain(t *Task) {
-	if s.checkGoidEnabled() {
-		s.setGoid(t)
-	}
+	s.setGoid(t) // also lets the watchdog find the goroutine that holds the baton
 	t.fn()
 	s.finish(t)
 }
@@ -917,7 +1035,7 @@ func (s *Sim) NumTasks() int { return len(s.tasks) }
 
 // Close releases the pipes of a finished run.
 func (s *Sim) Close() {
-	if s.Deadlock || s.Capped {
+	if s.Deadlock || s.Capped || s.NativeBlocked {
 		return // goroutines are still parked on them
 	}
 	syscall.Close(s.mainR)
